@@ -248,7 +248,7 @@ func runC09(t *simrt.Tape, o Opts) Outcome {
 		h.payloadClasses = []int{2, 0, 3}
 		h.newProc()
 		if t.Choose(2, "faulty") == 1 {
-			enableRandomFaults(w, t, []string{"ms.err", "ms.errafter", "ms.falsedup", "ms.race", "kms.err", "aead.err", "alloc.err"}, h.base.Expire, h.base.Revoke)
+			enableRandomFaults(w, t, []string{"ms.err", "ms.errafter", "ms.falsedup", "ms.race", "kms.err", "aead.err", "alloc.err", "ctx.cancel"}, h.base.Expire, h.base.Revoke)
 		}
 		h.hooks.afterOp = func(k int) { aud.audit("after " + opNames[k]) }
 		n := 5 + t.Choose(scale(o, 50, 150), "nops")
